@@ -7,6 +7,7 @@ import (
 	"fmt"
 	"io"
 	"reflect"
+	"sort"
 	"time"
 	"unicode/utf8"
 
@@ -318,6 +319,11 @@ func (e *encoder) encodeFile(file reflect.Value) error {
 						for _, f := range mfields {
 							def.fields = append(def.fields, f)
 						}
+						// Map iteration order is random: use the same
+						// (struct) order as for a single message.
+						sort.Slice(def.fields, func(a, b int) bool {
+							return def.fields[a].sindex < def.fields[b].sindex
+						})
 						err := e.writeDefMesg(def)
 						if err != nil {
 							return err
